@@ -12,4 +12,6 @@ Extraction "../ocaml/c08/model.ml"
   parse_geokeys ser_geokeys parse_ascii ser_ascii parse_wkt ser_wkt parse_laszip ser_laszip
   find_class known_table class_spec vlr_factory kv_record kv_records normalise read_known write_known
   wf_lookup_payload wf_geokeys_payload
-  partial_reset write_file read_file write_file_known read_file_from append_file.
+  partial_reset write_file read_file write_file_known read_file_from append_file
+  kv_class extract_rest sync_eb set_vlrs header_op set_content reread ser_content parse_class
+  eb_struct_size gk_entry_size double_size sync_extracted_class.
